@@ -15,3 +15,28 @@ contract("Folder.contains", source=M + "Folder.contains", params={"self": "Folde
                   # never itself, and never something whose path merely starts with the same characters (pkg vs pkg2/mod.py)
                   "implies(class_of(self) == class_of(resource) and self._path == resource._path, not result)"],
          note="containment is a statement about paths: a folder contains everything whose path continues its own after a slash; the root contains everything else")
+
+# ---- CPython cross-check on real Resource objects --------------------------------------------------------------------------------------
+def _xc_res_domain(tier, seed):
+    paths = ["", "a", "ab", "a/b", "a/bc", "a/b/c", "b", "a/", "ab/c"]
+    for p in paths:
+        for q in paths:
+            for kq in ("File", "Folder"):
+                yield (p, q, kq)
+
+
+def _xc_res_build(case):
+    from rope.base import resources
+    p, q, kq = case
+    a = object.__new__(resources.Folder)
+    a._path, a.project = p, None
+    b = object.__new__(getattr(resources, kq))
+    b._path, b.project = q, None
+    return {"self": a, "resource": b}
+
+
+REG.records["Resource"].pyclass = "rope.base.resources:Resource"
+REG.records["File"].pyclass = "rope.base.resources:File"
+REG.records["Folder"].pyclass = "rope.base.resources:Folder"
+bounded_check(name="c11-contains-native", props=["C11"], contract="Folder.contains", build=_xc_res_build, domain=_xc_res_domain, exhaustive=True,
+              label="CPython cross-check: Folder.contains' contract on real Folder/File objects, 9 x 9 paths x 2 kinds")
